@@ -35,6 +35,9 @@ class SymObj:
         self.cls = cls
         self.d = attrs if attrs is not None else {}
         self.label = label
+        # complete: built by interpreting the class's own __init__, so a missing attribute really is missing.  An instance
+        # written down by a contract (attribute dictionary given) is PARTIAL: an attribute it does not list is unknown.
+        self.complete = False
 
     def __repr__(self):
         return f'<SymObj {self.cls.__name__} {self.label}>'
